@@ -777,10 +777,15 @@ mod pattern_impl {
     pub struct RegexSearcher<'r, 't> {
         haystack: &'t str,
         regex: &'r Regex,
+        // The forward steps emitted so far cover the haystack up to here.
         current_pos: usize,
+        // Where the next forward search begins: one character past an empty match.
+        search_pos: usize,
         done: bool,
-        // For reverse searching
+        // For reverse searching: the steps emitted so far cover the haystack from here on.
         reverse_pos: usize,
+        // The matches not yet reported by next_back, in order; found on its first call.
+        reverse_matches: Option<Vec<(usize, usize)>>,
         reverse_done: bool,
     }
 
@@ -790,23 +795,12 @@ mod pattern_impl {
                 haystack,
                 regex,
                 current_pos: 0,
+                search_pos: 0,
                 done: false,
                 reverse_pos: haystack.len(),
+                reverse_matches: None,
                 reverse_done: false,
             }
-        }
-
-        fn find_last_match_before(&self, pos: usize) -> Option<super::Match> {
-            // Find all matches up to the given position and return the last one
-            let mut last_match = None;
-            for m in self.regex.find_from(self.haystack, 0) {
-                if m.end() <= pos {
-                    last_match = Some(m);
-                } else {
-                    break;
-                }
-            }
-            last_match
         }
     }
 
@@ -820,54 +814,43 @@ mod pattern_impl {
                 return SearchStep::Done;
             }
 
-            // Try to find the next match starting from current position
-            if let Some(m) = self.regex.find_from(self.haystack, self.current_pos).next() {
+            // Try to find the next match. A search position past the end finds nothing.
+            if let Some(m) = self.regex.find_from(self.haystack, self.search_pos).next() {
                 let match_start = m.start();
                 let match_end = m.end();
 
-                // Handle any gap between current position and match start
+                // Reject everything between what was emitted and the match. The same match is
+                // found again by the next call.
                 if self.current_pos < match_start {
-                    let reject_end = match_start;
                     let reject_start = self.current_pos;
                     self.current_pos = match_start;
-                    return SearchStep::Reject(reject_start, reject_end);
+                    return SearchStep::Reject(reject_start, match_start);
                 }
 
                 // Return the match
                 self.current_pos = match_end;
+                self.search_pos = match_end;
 
-                // Handle zero-width matches to avoid infinite loops
+                // After a zero-width match the search resumes one character later, but the
+                // character itself has not been emitted yet: a later step covers it.
                 if match_start == match_end {
-                    // For zero-width matches, we need to advance at least one byte
-                    // to avoid infinite loops
-                    if match_end < self.haystack.len() {
-                        // Find the next character boundary
-                        let mut next_pos = match_end + 1;
-                        while next_pos < self.haystack.len()
-                            && !self.haystack.is_char_boundary(next_pos)
-                        {
-                            next_pos += 1;
-                        }
-                        self.current_pos = next_pos;
-                    } else {
-                        // We're at the end of the string
-                        self.done = true;
+                    let mut next_pos = match_end + 1;
+                    while next_pos < self.haystack.len() && !self.haystack.is_char_boundary(next_pos)
+                    {
+                        next_pos += 1;
                     }
+                    self.search_pos = next_pos;
                 }
 
                 SearchStep::Match(match_start, match_end)
+            } else if self.current_pos < self.haystack.len() {
+                // No more matches, reject the remaining text
+                let reject_start = self.current_pos;
+                self.current_pos = self.haystack.len();
+                SearchStep::Reject(reject_start, self.haystack.len())
             } else {
-                // No more matches, reject remaining text if any
-                if self.current_pos < self.haystack.len() {
-                    let reject_start = self.current_pos;
-                    let reject_end = self.haystack.len();
-                    self.current_pos = self.haystack.len();
-                    self.done = true;
-                    SearchStep::Reject(reject_start, reject_end)
-                } else {
-                    self.done = true;
-                    SearchStep::Done
-                }
+                self.done = true;
+                SearchStep::Done
             }
         }
     }
@@ -878,50 +861,35 @@ mod pattern_impl {
                 return SearchStep::Done;
             }
 
-            // Try to find the last match before current reverse position
-            if let Some(m) = self.find_last_match_before(self.reverse_pos) {
-                let match_start = m.start();
-                let match_end = m.end();
+            // The matches are those of a forward search, reported last to first.
+            let (regex, haystack) = (self.regex, self.haystack);
+            let matches = self.reverse_matches.get_or_insert_with(|| {
+                regex
+                    .find_from(haystack, 0)
+                    .map(|m| (m.start(), m.end()))
+                    .collect()
+            });
 
-                // Handle any gap between match end and current reverse position
+            if let Some(&(match_start, match_end)) = matches.last() {
+                // Reject everything between the match and what was emitted.
                 if match_end < self.reverse_pos {
-                    let reject_start = match_end;
                     let reject_end = self.reverse_pos;
                     self.reverse_pos = match_end;
-                    return SearchStep::Reject(reject_start, reject_end);
+                    return SearchStep::Reject(match_end, reject_end);
                 }
 
                 // Return the match
+                matches.pop();
                 self.reverse_pos = match_start;
-
-                // Handle zero-width matches
-                if match_start == match_end {
-                    // For zero-width matches, move back by one character
-                    if match_start > 0 {
-                        let mut prev_pos = match_start - 1;
-                        while prev_pos > 0 && !self.haystack.is_char_boundary(prev_pos) {
-                            prev_pos -= 1;
-                        }
-                        self.reverse_pos = prev_pos;
-                    } else {
-                        // We're at the beginning of the string
-                        self.reverse_done = true;
-                    }
-                }
-
                 SearchStep::Match(match_start, match_end)
+            } else if self.reverse_pos > 0 {
+                // No more matches, reject the remaining text
+                let reject_end = self.reverse_pos;
+                self.reverse_pos = 0;
+                SearchStep::Reject(0, reject_end)
             } else {
-                // No more matches, reject remaining text if any
-                if self.reverse_pos > 0 {
-                    let reject_start = 0;
-                    let reject_end = self.reverse_pos;
-                    self.reverse_pos = 0;
-                    self.reverse_done = true;
-                    SearchStep::Reject(reject_start, reject_end)
-                } else {
-                    self.reverse_done = true;
-                    SearchStep::Done
-                }
+                self.reverse_done = true;
+                SearchStep::Done
             }
         }
     }
